@@ -10,7 +10,7 @@
    theorems are about the explicit commit graph of Model/Select.v, which the harness compares
    with real git on generated histories. *)
 From Coq Require Import List NArith Bool Permutation.
-From Conductor Require Model.Loader Model.Planner Model.Exec Model.RunCase.
+From Conductor Require Model.Loader Model.Planner Model.Exec Model.RunCase Proofs.PlannerOrder Proofs.PlannerInv Proofs.PlanClosure.
 From Conductor Require Import Lib.Str Model.Select Proofs.SelectSpec Proofs.SelectProofs Proofs.SelectDag.
 From Conductor Require Import Gen.Generated Proofs.GenTieSelect.
 Import ListNotations.
@@ -204,6 +204,19 @@ Proof.
   destruct (select_head_some _ _ _ _ _ S) as [B|[A _]]; [exact B|].
   exfalso. assert (H : commit ex_v = None) by (apply A; simpl; auto). discriminate H.
 Qed.
+
+(* "--again ignores the cache for the whole closure": for every project and every should_run decision, with --again
+   nothing is reported as cached and EXACTLY the tasks of the root's transitive closure (the root, and every task reachable
+   by a dependency path) are planned, each as one operation. *)
+Theorem C05_again_plans_exactly_the_closure :
+  forall info sr root, (forall t, NoDup (Planner.t_deps (info t))) ->
+  forall fuel ps, Planner.plan_for info sr true fuel root = Some ps ->
+    Planner.cached ps = [] /\
+    (forall t, (exists o, (o < length (Planner.ops ps))%nat /\ Planner.op_task (PlannerInv.op_at (Planner.ops ps) o) = t) <->
+               (t = root \/ PlannerOrder.TPath info root t)) /\
+    NoDup (map Planner.op_task (Planner.ops ps)).
+Proof. exact PlanClosure.again_plans_exactly_the_closure. Qed.
+Print Assumptions C05_again_plans_exactly_the_closure.
 
 (* Known finding F3.  The rule above is per task; WHICH tasks a run examines is the planner's traversal
    (Model/Planner.v), and it stops at an experiment whose cached version is current.  In the composed
